@@ -603,9 +603,15 @@ class _ContinueChecks(SyntaxRule):
 
     def is_issue(self, leaf):
         in_loop = False
+        in_finally = False
         for block in self._normalizer.context.blocks:
             if block.type in ('for_stmt', 'while_stmt'):
                 in_loop = True
+                else_ = block.children[-3]
+                if not (else_ == 'else' and leaf.start_pos > else_.start_pos):
+                    # The continue belongs to this loop, which may well be
+                    # inside a finally clause.
+                    in_finally = False
             if block.type == 'try_stmt':
                 last_block = block.children[-3]
                 if (
@@ -613,8 +619,10 @@ class _ContinueChecks(SyntaxRule):
                     and leaf.start_pos > last_block.start_pos
                     and self._normalizer.version < (3, 8)
                 ):
-                    self.add_issue(leaf, message=self.message_in_finally)
-                    return False  # Error already added
+                    in_finally = True
+        if in_finally:
+            self.add_issue(leaf, message=self.message_in_finally)
+            return False  # Error already added
         if not in_loop:
             return True
 
